@@ -42,6 +42,10 @@ pub enum Kind {
     /// genuinely signed by an authorised actor for this register, then RE-PARENTED: only the children set of the
     /// crdt op is rewritten (value, source, address and signature kept)
     Reparented,
+    /// genuinely signed by an authorised actor for this register with at least one parent, then RESHAPED: the parent
+    /// hashes are moved in front of the value and the children set is emptied (source, address and signature kept).
+    /// The crdt node hash is sha3(child1 .. childN value) without separators, so the reshaped node hashes the same
+    Reshaped,
 }
 
 #[derive(Serialize, Deserialize, Clone, Copy, Debug, PartialEq, Eq)]
@@ -208,6 +212,7 @@ fn gen_small(rng: &mut Rng, ctx: &GenCtx) -> Plan {
         if rng.chance(1, 2) { rng.range(1, 3) } else { 0 },
         if rng.chance(1, 2) { rng.range(1, 3) } else { 0 },
         if rng.chance(1, 2) { rng.range(1, 3) } else { 0 },
+        if rng.chance(1, 2) { rng.range(1, 3) } else { 0 },
     ];
     let kinds = [
         Kind::Good,
@@ -219,6 +224,7 @@ fn gen_small(rng: &mut Rng, ctx: &GenCtx) -> Plan {
         Kind::Oversized,
         Kind::Readdressed,
         Kind::Reparented,
+        Kind::Reshaped,
     ];
     let parents_w = [
         12,
